@@ -470,7 +470,7 @@ def interpreted_table(b):
 
 def sqrt_neg(b):
     """interpreted sqrt_neg (complex branch) == principal square root: result^2 == z, Re >= 0"""
-    from tpv.symex import _sh_real, _sh_imag, _sh_sign
+    from tpv.symex import _sh_real, _sh_imag, _sh_sign, NdArr
     npx = Namespace("np", {"sqrt": _sh_sqrt, "abs": _sh_abs, "real": _sh_real, "imag": _sh_imag, "sign": _sh_sign})
     pre = [sp.Gt(zr ** 2 + zi ** 2, 0)]
     fn, ex, paths = run_fn(b, FPY, "_sqrt_neg_python", dict(z=Z, is_real=False), pre, globals_env=dict(np=npx), xcheck=False)
@@ -480,6 +480,24 @@ def sqrt_neg(b):
             sq = v * v
             return sp.And(sp.Eq(sq.re, zr), sp.Eq(sq.im, zi), sp.Ge(v.re, 0), sp.Implies(sp.Eq(v.re, 0), sp.Ge(v.im, 0)))
         ensure(b, fn, "principal_square_root", paths, g, pre, clause="ensures sqrt_neg(z)^2 == z with Re >= 0 (same principal value as the compiled csqrt contract)")
+    # the zero argument (excluded above only because the generic clause divides by |z|): sqrt_neg(0) == 0, no exception, scalar and inside an array
+    for lab, zarg, real_flag in (("complex_zero", Cx(sp.Integer(0), sp.Integer(0)), False), ("real_zero", sp.Integer(0), True),
+                                 ("array_with_zero", NdArr([Cx(sp.Integer(0), sp.Integer(0)), Cx(sp.Integer(3), sp.Integer(4))]), False)):
+        fn0, ex0, p0 = run_fn(b, FPY, "_sqrt_neg_python", dict(z=zarg, is_real=real_flag), [], globals_env=dict(np=npx), xcheck=False)
+        if not p0:
+            continue
+        for i_, p_ in enumerate(p0):
+            if p_.outcome != "return":
+                b.add(Obligation(oid=f"{fn0.key}::ensures:zero_argument[{lab}]:noraise@path{i_}", fn=fn0.key, clause="sqrt_neg of an exactly zero argument returns (C99: csqrt(+-0) = 0), it does not raise", goal=sp.false, hyps=p_.hyps,
+                                 meta=dict(raised=repr(p_.value)[:120])))
+                continue
+            v0 = p_.value[0] if isinstance(p_.value, (list, NdArr)) else p_.value
+            v0 = Cx.of(v0)
+            goal0 = sp.And(sp.Eq(v0.re, 0), sp.Eq(v0.im, 0))
+            if isinstance(p_.value, (list, NdArr)) and len(p_.value) == 2:
+                v1 = Cx.of(p_.value[1])
+                goal0 = sp.And(goal0, sp.Eq(v1.re, 2), sp.Eq(v1.im, 1))
+            b.add(Obligation(oid=f"{fn0.key}::ensures:zero_argument[{lab}]@path{i_}", fn=fn0.key, clause="ensures sqrt_neg(0) == 0 (and the other elements of an array keep their principal roots: sqrt(3+4i) = 2+i)", goal=goal0, hyps=p_.hyps))
     # real branch (is_real=True, the one the interpreted radial solver calls): sqrt(x) for x > 0, i sqrt|x| for x < 0, 0 at 0
     xr = R("x_real")
     fn, ex, paths = run_fn(b, FPY, "_sqrt_neg_python", dict(z=xr, is_real=True), [], globals_env=dict(np=npx), xcheck=False)
